@@ -4525,20 +4525,36 @@ impl<'a> Assignment<'a> {
                             "1" | "yes" | "true" | "enabled" | "on" => DataValue::Bool(true),
                             _ => DataValue::Bool(false),
                         },
-                        ArgType::Integer => DataValue::try_from(value).or_else(|_| {
+                        //(DataValue::try_from(&str) is the infallible conversion to DataValue::String, numbers have to be parsed)
+                        ArgType::Integer => DataValue::Int(value.parse().or_else(|_| {
                             Err(StamError::QuerySyntaxError(
                                 format!("Expected integer in assignment, got '{}'", value),
                                 "",
                             ))
-                        })?,
-                        ArgType::Float => DataValue::try_from(value).or_else(|_| {
+                        })?),
+                        ArgType::Float => DataValue::Float(value.parse().or_else(|_| {
                             Err(StamError::QuerySyntaxError(
-                                format!("Expected integer in assignment, got '{}'", value),
+                                format!("Expected float in assignment, got '{}'", value),
                                 "",
                             ))
-                        })?,
-                        ArgType::String => DataValue::String(value.to_string()),
-                        _ => unreachable!("argtype should not occur"),
+                        })?),
+                        ArgType::Null => DataValue::Null,
+                        ArgType::Datetime => {
+                            DataValue::Datetime(DateTime::parse_from_rfc3339(value).or_else(|_| {
+                                Err(StamError::QuerySyntaxError(
+                                    format!("Expected datetime in assignment, got '{}'", value),
+                                    "",
+                                ))
+                            })?)
+                        }
+                        //a quoted string may contain a pipe, there are no disjunctions in an assignment
+                        ArgType::String | ArgType::List => DataValue::String(value.to_string()),
+                        ArgType::Any | ArgType::UnquotedList => {
+                            return Err(StamError::QuerySyntaxError(
+                                format!("Expected a value in assignment, got '{}'", value),
+                                "",
+                            ))
+                        }
                     }
                 };
                 Self::Data { set, key, value }
